@@ -43,7 +43,7 @@ def main() -> int:
     if not a.replay:
         import glob
 
-        for old in glob.glob(os.path.join(vlib.VERIF, "replays", prop, "*.json")):
+        for old in glob.glob(os.path.join(vlib.OUT_DIR, "replays", prop, "*.json")):
             os.remove(old)
     try:
         if a.replay:
